@@ -116,7 +116,7 @@ SIGS = {
 }
 COQNAME = {"shared_gaps:arr": "shared_gaps_coords", "shared_gaps:map": "shared_gaps", "minus_gaps:arr": "minus_gaps_coords", "minus_gaps:map": "minus_gaps", "_gap_spans": "gap_spans", "_update_lengths": "update_lengths", "__len__": "len", "__getitem__int": "getitem_int", "__getitem__slice": "getitem_slice",
            "__add__": "add", "__mul__": "mul"}
-COQTYPE = {"D": "list (Z * Z)", "OPAIR": "option (Z * Z)", "T2": "(Z * Z)", "GP": "list (Z * Z)", "GS": "list ispan", "OPT": "option Z", "Z": "Z", "L": "list Z", "LL": "(list Z * list Z)", "M": "imap", "P": "list (Z * Z)", "B": "bool"}
+COQTYPE = {"S": "fspan", "SL": "list fspan", "Q": "list quad", "FM": "fmap", "D": "list (Z * Z)", "OPAIR": "option (Z * Z)", "T2": "(Z * Z)", "GP": "list (Z * Z)", "GS": "list ispan", "OPT": "option Z", "Z": "Z", "L": "list Z", "LL": "(list Z * list Z)", "M": "imap", "P": "list (Z * Z)", "B": "bool"}
 
 
 def coqname(f):
@@ -148,7 +148,7 @@ class Fn:
             return v.t
         if v.kind == "Z":
             return f"negb ({v.t} =? 0)"
-        if v.kind in ("L", "P", "D"):
+        if v.kind in ("L", "P", "D", "SL", "Q"):
             return f"negb (zlen {paren(v.t)} =? 0)"
         if v.kind == "OPT":
             return f"match {v.t} with Some v_ => negb (v_ =? 0) | None => false end"
@@ -297,6 +297,8 @@ class Fn:
                 return V("L", "[" + "; ".join(v.t for v in items) + "]", py=True)
             if items and all(v.kind == "T" and len(v.items) == 2 and all(w.kind == "Z" for w in v.items) for v in items):
                 return V("P", "[" + "; ".join(f"({v.items[0].t}, {v.items[1].t})" for v in items) + "]", py=True)
+            if all(v.kind == "S" for v in items):
+                return V("SL", "[" + "; ".join(v.t for v in items) + "]", py=True)
             if len(items) == 2 and all(v.kind == "L" for v in items):
                 return V("LPAIR", items=items)
             fail(e, "list literal")
@@ -324,6 +326,24 @@ class Fn:
                 self.tr.uses_num_gaps = True
                 return V("Z", f"(num_gaps {m.t})")
             fail(e, f"attribute {e.attr} of a map")
+        if isinstance(e.value, ast.Name) and e.value.id in env and env[e.value.id].kind == "FM":
+            m = env[e.value.id]
+            if e.attr == "spans":
+                return V("SL", f"(fspans {m.t})", py=True)
+            if e.attr == "parent_length":
+                return V("Z", f"(fplen {m.t})")
+            fail(e, f"attribute {e.attr} of a feature map")
+        if isinstance(e.value, ast.Name) and e.value.id in env and env[e.value.id].kind == "S":
+            sp = env[e.value.id]
+            if e.attr == "lost":
+                return V("B", f"(is_lost {sp.t})")
+            if e.attr == "reverse":
+                return V("B", f"(sp_rev {sp.t})")
+            if e.attr in ("start", "end"):
+                return V("Z", f"(sp_{e.attr} {sp.t})")
+            if e.attr == "length":
+                return V("Z", f"(slen {sp.t})")
+            fail(e, f"attribute {e.attr} of a span")
         if isinstance(e.value, ast.Name) and e.value.id in env and env[e.value.id].kind == "SLICE":
             parts = env[e.value.id].items
             if e.attr in parts:
@@ -419,14 +439,43 @@ class Fn:
         fn = dotted(e.func)
         args = e.args
         kw = {k.arg: k.value for k in e.keywords}
+        if fn == "Span" and len(args) <= 2 and set(kw) <= {"start", "end", "reverse"}:
+            parts = dict(zip(("start", "end"), args))
+            parts.update(kw)
+            if "start" not in parts or "end" not in parts:
+                fail(e, "Span without start / end")
+            a = self.need(self.expr(parts["start"], env, binds), "Z", e)
+            b = self.need(self.expr(parts["end"], env, binds), "Z", e)
+            r = self.cond(parts["reverse"], env, binds) if "reverse" in parts else "false"
+            return V("S", f"(mk_span {a.t} {b.t} {paren(r)})")
+        if fn == "LostSpan" and len(args) == 1 and not kw:
+            n = self.need(self.expr(args[0], env, binds), "Z", e)
+            return V("S", f"(FL {n.t})")
+        if fn == "abs" and len(args) == 1 and not kw:
+            n = self.need(self.expr(args[0], env, binds), "Z", e)
+            return V("Z", f"(Z.abs {n.t})")
+        if fn == "tuple" and len(args) == 1 and not kw:
+            v = self.expr(args[0], env, binds)
+            if v.kind in ("SL", "EMPTYLIST"):
+                return v
+        if fn == "_spans_from_locations" and not args and set(kw) == {"locations", "parent_length"}:
+            l_ = self.need(self.expr(kw["locations"], env, binds), "P", e)
+            n = self.need(self.expr(kw["parent_length"], env, binds), "Z", e)
+            name = self.tmp("r")
+            binds.append((name, f"g_spans_from_locations {paren(l_.t)} {n.t}"))
+            return V("SL", name, py=True)
         if fn in ("int",) and len(args) == 1:
             return self.need(self.expr(args[0], env, binds), "Z", e)
         if fn == "len" and len(args) == 1:
             if isinstance(args[0], ast.Name) and args[0].id in env and env[args[0].id].kind == "M":
                 return V("Z", f"(g_len {env[args[0].id].t})")
+            if isinstance(args[0], ast.Name) and args[0].id in env and env[args[0].id].kind == "FM":
+                return V("Z", f"(flen {env[args[0].id].t})")
             v = self.expr(args[0], env, binds)
-            if v.kind in ("L", "P", "D"):
+            if v.kind in ("L", "P", "D", "SL", "Q"):
                 return V("Z", f"(zlen {paren(v.t)})")
+            if v.kind == "FM":
+                return V("Z", f"(flen {paren(v.t)})")
             fail(e, f"len of a {v.kind}")
         if fn in ("min", "max") and not kw:
             vals = [self.expr(a, env, binds) for a in args]
@@ -537,6 +586,27 @@ class Fn:
         if isinstance(e.func, ast.Attribute):
             attr = e.func.attr
             recv = e.func.value
+            # feature maps: self.__class__(spans=, parent_length=) / self.__class__.from_locations(...) / methods
+            if attr == "__class__" and isinstance(recv, ast.Name) and recv.id in env and env[recv.id].kind == "FM":
+                if args or set(kw) != {"spans", "parent_length"}:
+                    fail(e, "FeatureMap constructor keywords")
+                sp = self.need(self.expr(kw["spans"], env, binds), "SL", e)
+                n = self.need(self.expr(kw["parent_length"], env, binds), "Z", e)
+                return V("FM", f"(mk_fmap {paren(sp.t)} {n.t})")
+            if attr == "from_locations" and isinstance(recv, ast.Attribute) and recv.attr == "__class__" \
+                    and isinstance(recv.value, ast.Name) and recv.value.id in env and env[recv.value.id].kind == "FM" \
+                    and not args and set(kw) == {"locations", "parent_length"}:
+                l_ = self.need(self.expr(kw["locations"], env, binds), "P", e)
+                n = self.need(self.expr(kw["parent_length"], env, binds), "Z", e)
+                name = self.tmp("r")
+                binds.append((name, f"g_from_locations {paren(l_.t)} {n.t}"))
+                return V("FM", name)
+            if attr in ("inverse", "gaps") and not args and not kw:
+                v = self.expr(recv, env, binds)
+                if v.kind == "FM":
+                    name = self.tmp("r")
+                    binds.append((name, f"g_fm_{attr} {paren(v.t)}"))
+                    return V("FM", name)
             # self.__class__(...)
             if attr == "__class__" and isinstance(recv, ast.Name) and recv.id in env and env[recv.id].kind == "M":
                 if args or set(kw) not in ({"gap_pos", "cum_gap_lengths", "parent_length"}, {"gap_pos", "gap_lengths", "parent_length"}):
@@ -650,10 +720,23 @@ class Fn:
                 x = self.expr(s.value.args[0], env, binds)
                 if not a.py:
                     fail(s, "append to an array")
+                if a.kind == "SL" and x.kind == "S":
+                    return self.bind_name(name, V("SL", f"({a.t} ++ [{x.t}])", py=True), env, binds, cont)
+                if a.kind == "Q" and x.kind == "T" and len(x.items) == 4 and all(w.kind == "Z" for w in x.items):
+                    return self.bind_name(name, V("Q", f"({a.t} ++ [({', '.join(w.t for w in x.items)})])", py=True), env, binds, cont)
                 if a.kind == "P" and x.kind == "T" and len(x.items) == 2 and all(w.kind == "Z" for w in x.items):
                     return self.bind_name(name, V("P", f"({a.t} ++ [({x.items[0].t}, {x.items[1].t})])", py=True), env, binds, cont)
                 self.need(a, "L", s), self.need(x, "Z", s)
                 return self.bind_name(name, V("L", f"({a.t} ++ [{x.t}])", py=True), env, binds, cont)
+            if isinstance(s.value, ast.Call) and isinstance(s.value.func, ast.Attribute) and s.value.func.attr in ("reverse", "sort") \
+                    and isinstance(s.value.func.value, ast.Name) and not s.value.args and not s.value.keywords:
+                name = s.value.func.value.id
+                a = self.expr(s.value.func.value, env, [])
+                if s.value.func.attr == "reverse" and a.kind == "SL":
+                    return self.bind_name(name, V("SL", f"(rev {paren(a.t)})", py=True), env, [], cont)
+                if s.value.func.attr == "sort" and a.kind == "Q":
+                    return self.bind_name(name, V("Q", f"(sort_quads {paren(a.t)})", py=True), env, [], cont)
+                fail(s, f".{s.value.func.attr}() of a {a.kind}")
             if isinstance(s.value, ast.Call) and dotted(s.value.func) == "_update_lengths" and len(s.value.args) == 4 \
                     and not s.value.keywords and isinstance(s.value.args[1], ast.Name):
                 binds = []
@@ -683,7 +766,15 @@ class Fn:
                 fail(s, f"raise of {name}")
             return f"Err {EXC[name]}"
         if isinstance(s, ast.Assert):
-            return cont(env) if self.static_true(s.test, env) else fail(s, "assert that is not statically true")
+            if self.static_true(s.test, env):
+                return cont(env)
+            if self.pure:
+                fail(s, "assert in a pure function")
+            binds = []
+            c = self.cond(s.test, env, binds)
+            if binds:
+                fail(s, "raising call in an assert")
+            return f"if {c}\nthen ({cont(env)})\nelse (Err E_Other)"
         if isinstance(s, ast.Assign):
             if len(s.targets) != 1:
                 fail(s, "chained assignment")
@@ -745,6 +836,12 @@ class Fn:
         elif arr.kind == "P" and isinstance(target, ast.Tuple) and len(target.elts) == 2 and all(isinstance(x, ast.Name) for x in target.elts):
             elems = [x.id for x in target.elts]
             ety = "Z * Z"
+        elif arr.kind == "Q" and isinstance(target, ast.Tuple) and len(target.elts) == 4 and all(isinstance(x, ast.Name) for x in target.elts):
+            elems = [x.id for x in target.elts]
+            ety = "quad"
+        elif arr.kind == "SL" and isinstance(target, ast.Name):
+            elems = [target.id]
+            ety = "fspan"
         else:
             fail(s, f"loop over a {arr.kind} with this target")
         bound = set(elems) | ({counter} if counter else set())
@@ -754,7 +851,7 @@ class Fn:
             k = env[n].kind
             if k == "NONE" or k == "OPT":
                 k = "OPT"
-            elif k not in ("Z", "L", "B", "P", "D"):
+            elif k not in ("Z", "L", "B", "P", "D", "S", "SL", "Q"):
                 fail(s, f"loop assigns {n}, which cannot be carried")
             kinds[n] = k
         self.fresh += 1
@@ -765,7 +862,7 @@ class Fn:
             env_in[n] = V(kinds[n], cn(n), py=env[n].py)
         env_body = dict(env_in)
         for x in elems:
-            env_body[x] = V("Z", cn(x))
+            env_body[x] = V("S" if ety == "fspan" else "Z", cn(x))
         if counter:
             env_body[counter] = V("Z", cnt)
 
@@ -797,7 +894,7 @@ class Fn:
         rt = COQTYPE[self.rkind] if self.pure else f"res ({COQTYPE[self.rkind]})"
         params = "".join(f" ({cn(n)} : {COQTYPE[kinds[n]]})" for n in state)
         init = "".join(" " + paren(coerce(env[n], kinds[n], s)) for n in state)
-        pat = cn(elems[0]) if len(elems) == 1 else f"({cn(elems[0])}, {cn(elems[1])})"
+        pat = cn(elems[0]) if len(elems) == 1 else "(" + ", ".join(cn(x) for x in elems) + ")"
         return (f"(fix {loop} ({cnt} : Z) ({xs} : list ({ety})){params} {{struct {xs}}} : {rt} :=\n"
                 f"match {xs} with\n| [] =>\n{done}\n| {pat} :: {xs} =>\n{body}\nend) 0 {paren(arr.t)}{init}")
 
@@ -816,7 +913,9 @@ class Fn:
                 return f"Some ({v.items[0].t}, {v.items[1].t})"
             if all(x.kind == "NONE" for x in v.items):
                 return "None"
-        if v.kind == "EMPTYLIST" and kind in ("L", "P"):
+        if v.kind == "EMPTYLIST" and kind in ("L", "P", "SL"):
+            return "[]"
+        if kind == "SL" and v.kind == "T" and not v.items:
             return "[]"
         if v.kind != kind:
             fail(node, f"returns a {v.kind}, expected {kind}")
@@ -832,11 +931,12 @@ class Fn:
     def bind_name(self, name, v, env, binds, cont):
         env2 = dict(env)
         if v.kind == "EMPTYLIST":
-            v = V("P" if self.appends_pairs(name) else "L", "[]", py=v.py)
+            hint = getattr(self.tr, "list_hints", {}).get((self.name, name))
+            v = V(hint or ("P" if self.appends_pairs(name) else "L"), "[]", py=v.py)
         if v.kind in ("OPAIR", "OPT") and v.t is not None:
             env2[name] = V(v.kind, cn(name))
             return self.with_binds(binds, f"let {cn(name)} := {v.t} in\n{cont(env2)}")
-        if v.kind in ("Z", "L", "B", "P", "D"):
+        if v.kind in ("Z", "L", "B", "P", "D", "S", "SL", "Q", "FM"):
             env2[name] = V(v.kind, cn(name), py=v.py, extra=(v.extra if v.kind == "L" and v.extra != name else None))
             return self.with_binds(binds, f"let {cn(name)} := {v.t} in\n{cont(env2)}")
         if v.kind == "RES":
@@ -961,6 +1061,8 @@ class Fn:
                 return self.bind_name(t.id, V("Z", f"({a.t} {sym} {v.t})"), env, binds, cont)
             if a.kind == "P" and v.kind == "P" and a.py and v.py and sym == "+":
                 return self.bind_name(t.id, V("P", f"({a.t} ++ {v.t})", py=True), env, binds, cont)
+            if a.kind == "SL" and v.kind == "SL" and sym == "+":
+                return self.bind_name(t.id, V("SL", f"({a.t} ++ {v.t})", py=True), env, binds, cont)
             if a.kind == "L" and v.kind == "Z" and not a.py:
                 self.local_array(t.id, env, s)
                 return self.bind_name(t.id, V("L", f"(map (fun p_ => p_ {sym} {v.t}) {paren(a.t)})"), env, binds, cont)
@@ -1055,7 +1157,7 @@ class Fn:
             kb = kind_after(self, body_b, env_b, n) if body_b else env[n]
             ko = kind_after(self, body_o, env_o, n) if body_o else env[n]
             kinds[n] = join_kind(kb, ko, s)
-            if kinds[n] not in ("Z", "L", "B", "P", "D", "OPT"):
+            if kinds[n] not in ("Z", "L", "B", "P", "D", "OPT", "S", "SL", "Q"):
                 fail(s, f"variable {n} cannot be merged")
             env2[n] = V(kinds[n], cn(n), py=kb.py)
 
@@ -1150,7 +1252,7 @@ def dotted(f):
 def has_exit(stmts):
     for s in stmts or []:
         for n in ast.walk(s):
-            if isinstance(n, (ast.Return, ast.Raise, ast.Yield, ast.YieldFrom, ast.Continue, ast.Break)):
+            if isinstance(n, (ast.Return, ast.Raise, ast.Yield, ast.YieldFrom, ast.Continue, ast.Break, ast.Assert)):
                 return True
     return False
 
